@@ -367,13 +367,15 @@ func c33SignExt(b []byte) uint64 {
 // jump_ind}; ok=false when the program leaves that set (the case is then not judged).
 func c33Interp(code []byte, mask []bool, pc uint64, gas int64, regs *[13]uint64, mem c33Mem) (ex c33Exit, newPC uint64, newGas int64, pcKnown, ok bool) {
 	for steps := 0; steps < 1000; steps++ {
+		if pc >= uint64(len(code)) {
+			// pc outside the code: the GP executes an implicit trap (charged, out-of-gas test first);
+			// whether the gas unit is charged is C04's subject — not judged here
+			return c33Exit{}, 0, 0, false, false
+		}
 		if gas < 1 {
 			return c33Exit{Kind: INNEROOG}, pc, gas, true, true
 		}
 		gas--
-		if pc >= uint64(len(code)) {
-			return c33Exit{Kind: INNERPANIC}, 0, gas, false, true
-		}
 		ipc := int(pc)
 		op := code[ipc]
 		sk := c33Skip(mask, ipc)
